@@ -140,7 +140,10 @@ def build(shape, gin, lists_on='target'):
   mod = types.ModuleType(modname)
   mod.__dict__['gin'] = gin
   mod.__dict__['REQUIRED'] = gin.REQUIRED
-  mod.__dict__['NONLITERAL'] = NONLITERAL
+  # (a default without a literal form: an arbitrary object, or a non-finite float, whose repr
+  # 'inf' is a name, not a literal)
+  mod.__dict__['NONLITERAL'] = {'inf': float('inf'), '-inf': float('-inf')}.get(
+      shape.get('nonliteral_kind'), NONLITERAL)
   mod.LOG = []
 
   def _record(named, args, kw):
